@@ -559,7 +559,7 @@ func ExecH(c HCase) (res core.Result) {
 		abort := make(chan struct{})
 		var once sync.Once
 		// a watched lease file is rewritten in place (same content) for as long as the burst
-		// lasts, and the burst is then repeated in waves for 100 ms
+		// lasts, and the burst is then repeated in waves for 150 ms
 		stopW := make(chan struct{})
 		var wwg sync.WaitGroup
 		if len(ci.refresh) > 0 {
@@ -584,7 +584,7 @@ func ExecH(c HCase) (res core.Result) {
 			}()
 		}
 		defer func() { close(stopW); wwg.Wait() }()
-		until := time.Now().Add(100 * time.Millisecond)
+		until := time.Now().Add(150 * time.Millisecond)
 		for wave := 0; ; wave++ {
 			var wg sync.WaitGroup
 			start := make(chan struct{})
